@@ -310,6 +310,7 @@ def main():
     agg = {"evaluations": 0, "capped": 0, "crashes": 0, "sim_s": 0.0, "events": 0}
     counters = {}
     fps = set()
+    abs_states, abs_trans = set(), set()
     sigs = {}
     samples = []
     found = {}      # class -> (job, seed, res)
@@ -335,6 +336,8 @@ def main():
             agg["events"] += res.get("events", 0)
             for k, v in res.get("cnt", {}).items():
                 counters[k] = counters.get(k, 0) + v
+            abs_states.update(res.get("abs_states", ()))
+            abs_trans.update(res.get("abs_trans", ()))
             if res.get("nontriv") and not res.get("capped"):
                 fps.add(res.get("fp"))
                 s = res.get("sig", "")
@@ -403,6 +406,8 @@ def main():
             "probes": probe_counts,
             "probes_at_zero": [p for p in spec.get("expect_probes", []) if not probe_counts.get(p)],
             "configurations_visited": len(sigs),
+            "server_session_abstract_states": {"measure": "distinct values of (lazy, query held, realsoon held, duplicate remembered, outpacket active, queue fill 0-4, resend count 0-6, inpacket mid-assembly, out-fragment class, conn type, authenticated, raw-authenticated) over all sessions after every server step",
+                                               "distinct_states": len(abs_states), "distinct_transitions": len(abs_trans)},
             "configuration_histogram_top": dict(sorted(sigs.items(), key=lambda x: -x[1])[:12]),
             "capped_inconclusive_runs": agg["capped"],
             "abnormal_child_ends": agg["crashes"],
